@@ -31,6 +31,14 @@ def ext_targets(prog, f, call):
                     out.append(("func", r))
                 else:
                     out.append(("unknown", norm(v)))
+            elif isinstance(v, ast.Call) and norm(v.func) == "getattr" and len(v.args) in (2, 3) and isinstance(v.args[1], ast.Constant) \
+                    and isinstance(v.args[1].value, str):
+                # _is_date = getattr(datetime.date, "fromisoformat", None): the library function when there is one
+                r = prog.resolve_expr(f.mod, v.args[0])
+                if isinstance(r, tuple) and r[0] == "ext":
+                    out.append(("ext", "%s.%s" % (r[1], v.args[1].value)))
+                else:
+                    out.append(("unknown", norm(v)))
             elif isinstance(v, ast.Call):
                 # compiled regex etc.
                 out.append(("value", norm(v)))
